@@ -225,7 +225,7 @@ LeafWhys(c, lf) ==
     IF res.kind = "ok" /\ lf.reads = 0 /\ c.size > 1 THEN "P:C09:password-produced-without-reading-the-random-source" ELSE "ok",
     IF lf.unann > 0 THEN "S:random-source-read-without-an-announced-bounded-draw" ELSE "ok",
     IF lf.left > 0 THEN "S:announced-draw-did-not-read-the-source" ELSE "ok",
-    IF res.kind = "ok" /\ honourable /\ lf.unann = 0 /\ Replayable
+    IF res.kind = "ok" /\ honourable /\ lf.unann = 0 /\ lf.trunc = 0 /\ Replayable
        /\ ~(LET m == Machine(c, lf) IN m.ok /\ m.toks = res.toks)
       THEN "S:WordGen-machine-disagrees" ELSE "ok"
   >>
